@@ -12,6 +12,7 @@ normalisation, own Delta R from eta/phi, `math.fsum` hole sums, own eta/phi of t
 tolerance and an explicit "ambiguous" zone around the two thresholds (Delta R ~ R, pT' ~ upper bound).
 """
 import contextlib
+import copy
 import csv
 import io
 import json
@@ -69,7 +70,10 @@ def _jetdef(name, R):
 def _tmpdir():
     global _TMP
     if _TMP is None:
+        import atexit
+        import shutil
         _TMP = tempfile.mkdtemp(prefix="verif_C20_")
+        atexit.register(shutil.rmtree, _TMP, True)
     return _TMP
 
 
@@ -233,6 +237,12 @@ def code_like_subtracted_pt(ev, j, R, holes_charged_only=False):
     return fj.PseudoJet(j["px"] - px, j["py"] - py, j["pz"] - pz, j["E"] - E).perp()
 
 
+ETA_CHOICES = [(-2.0, 2.0), (-2.0, 2.0), (None, 1.0), (-1.0, None), (None, None), (2.0, -2.0), (0.0, 1.5), (2.5, None),
+               (None, -2.5)]
+PT_CHOICES = [(10.0, None), (10.0, None), (None, None), (5.0, 30.0), (30.0, 5.0), (None, 25.0), (8.0, 8.0), (3.0, None),
+              (None, 6.0), (20.0, 12.0)]
+
+
 def gen_input(rng, ctx=None):
     nev = rng.choice([0, 1, 1, 2, 2, 3, 3, 4, 5])
     jetless = ["empty", "soft", "outside"]
@@ -248,10 +258,8 @@ def gen_input(rng, ctx=None):
     R = rng.choice([0.2, 0.4, 0.4, 0.7, 1.0, rng.uniform(0.15, 1.2)])
     alg = rng.choice(["antikt", "antikt", "antikt", "kt", "cambridge", "genkt"])
     only_charged = rng.random() < 0.6
-    eta = list(rng.choice([(-2.0, 2.0), (-2.0, 2.0), (None, 1.0), (-1.0, None), (None, None), (2.0, -2.0), (0.0, 1.5),
-                           (2.5, None), (None, -2.5)]))
-    pt = list(rng.choice([(10.0, None), (10.0, None), (None, None), (5.0, 30.0), (30.0, 5.0), (None, 25.0), (8.0, 8.0),
-                          (3.0, None), (None, 6.0), (20.0, 12.0)]))
+    eta = list(rng.choice(ETA_CHOICES))
+    pt = list(rng.choice(PT_CHOICES))
     tags = []
     if rng.random() < 0.15:
         # radius bit-equal to the delta_r of some (selected jet, relevant particle) pair: re-cluster with R := that
@@ -437,7 +445,12 @@ def correspond(ctx):
                 "<0 and >=0, charged/neutral/unset charge), R, algorithm, eta/pT windows with None, swapped and "
                 "bit-equal-to-a-jet limits, charged-only on/off, output file absent/empty/pre-filled; non-trivial = "
                 "at least one jet row written AND (pre-filled file or jet-less first event or a hole subtracted or a jet "
-                "omitted by the upper cut); plus parameter-normalisation and reader cases; distinct by canonical input")
+                "omitted by the upper cut); plus parameter-normalisation and reader cases; plus call histories on ONE "
+                "long-lived JetAnalysis object (same list changed in place between calls: events replaced/added/removed/"
+                "reordered, particles added/removed, momentum/status/charge changed through the setters; new lists; new outer "
+                "list over the same event lists; other parameters; output path re-used, rewritten or deleted; read_jet_data "
+                "in between), every call compared with the model on the current content (non-trivial = 2nd or later call "
+                "that writes a jet); distinct by canonical input")
     ctx.cov["source_sha"] = common.region_hash(common.read_src("JetAnalysis.py"))
     ctx.cov["source_regions"] = source_regions()  # information only: the tie is the correspondence, not these hashes
     ctx.assumptions.append("fastjet (clustering, inclusive_jets(ptmin) as filter pt>=ptmin, SelectorEtaRange closed window, "
@@ -482,6 +495,25 @@ def correspond(ctx):
             continue
         lines.append(run_line(inp, clusters))
         meta.append(("run", (inp, info, clusters)))
+    # --- call histories on one long-lived JetAnalysis object: every call against the model run on the CURRENT content
+    for k in range(ctx.n(30, 400)):
+        sess = gen_session(rng)
+        res = run_session(sess, judge_steps=False)
+        for i, step in enumerate(res or []):
+            inp = step["inp"]
+            annotate_charged(inp)
+            clusters = [cluster_all(ev, inp["alg"], inp["R"]) for ev in inp["events"]]
+            norm = py_normalise(inp["eta"], inp["pt"])
+            if not all(contract_ok(ev, inp["alg"], inp["R"], norm, js) for ev, js in zip(inp["events"], clusters)):
+                ctx.count("fastjet-filter-contract-miss (case skipped)")
+                continue
+            st = sess["steps"][i]
+            info = dict(prior="absent" if inp["prior"] is None else "rows" if inp["prior"] else "empty",
+                        tags=["session-call=%d" % min(i + 1, 4)] + (["list=" + st["data"]] if i else [])
+                        + ["change=" + op[0] for op in st["mut"]])
+            lines.append(run_line(inp, clusters))
+            meta.append(("run", (inp, info, clusters, (step["outcome"], step["real"]),
+                                 dict(base=sess["base"], steps=sess["steps"][:i + 1]))))
     outs = common.run_driver("C20", lines)
     bad_runs = []
     for (kind, data), out in zip(meta, outs):
@@ -492,7 +524,7 @@ def correspond(ctx):
         else:
             before = ctx.hist.get("correspondence-disagreements", 0)
             _corr_run(ctx, data, out)
-            if ctx.hist.get("correspondence-disagreements", 0) > before:
+            if ctx.hist.get("correspondence-disagreements", 0) > before and len(data) == 3:
                 bad_runs.append(data)
     if bad_runs:
         _diagnose(ctx, bad_runs[:25])
@@ -598,8 +630,12 @@ def classify(inp, info, clusters, model_rows):
 
 
 def _corr_run(ctx, data, out):
-    inp, info, clusters = data
-    outcome, real, _ = real_run(inp)
+    inp, info, clusters = data[:3]
+    session = data[4] if len(data) > 3 else None
+    if session is None:
+        outcome, real, _ = real_run(inp)
+    else:
+        outcome, real = data[3]  # what the long-lived object wrote for this call of its history
     if out.startswith("ok "):
         f = out.split()
         model_rows, spec_rows = parse_rows(f[1]), parse_rows(f[2])
@@ -611,19 +647,27 @@ def _corr_run(ctx, data, out):
     ctx.count("run/alg=" + inp["alg"])
     ctx.count("run/outcome=" + outcome)
     small = len(json.dumps(strip(inp))) < 2500
-    ctx.case(canon(inp), nontrivial and outcome == "ok",
-             sample=dict(op="run", input=strip(inp), tags=tags, code_rows=real, model=out) if (small and nontrivial) else None)
+    if session is None:
+        ctx.case(canon(inp), nontrivial and outcome == "ok",
+                 sample=dict(op="run", input=strip(inp), tags=tags, code_rows=real, model=out) if (small and nontrivial) else None)
+        case = dict(op="run", input=strip(inp))
+        who = "code"
+    else:
+        ncall = len(session["steps"])
+        ctx.case(("session", json.dumps(session, sort_keys=True)), ncall >= 2 and bool(model_rows) and outcome == "ok")
+        case = dict(op="session", input=session, call=ncall)
+        who = f"code (call {ncall} on one JetAnalysis object, list object: {session['steps'][-1]['data']})"
     if outcome != "ok" or not out.startswith("ok "):
         if not (outcome == out):
-            _brk(ctx, f"outcome: code '{outcome}' vs model '{out[:60]}' (tags {tags})", dict(op="run", input=strip(inp)))
+            _brk(ctx, f"outcome: {who} '{outcome}' vs model '{out[:60]}' (tags {tags})", case)
         return
     d = rows_match(real, model_rows, inp)
     if d:
-        _brk(ctx, f"output file, code vs model ({tags}): {d}", dict(op="run", input=strip(inp)))
+        _brk(ctx, f"output file, {who} vs model ({tags}): {d}", case)
         return
     d = rows_match(real, spec_rows, inp)
     if d:
-        _brk(ctx, f"output file, code vs executable Lean specification ({tags}): {d}", dict(op="run", input=strip(inp)))
+        _brk(ctx, f"output file, {who} vs executable Lean specification ({tags}): {d}", case)
 
 
 # ------------------------------------------------------------------ oracle on the real code (independent reference)
@@ -719,11 +763,23 @@ def _rows_close(real, exp):
 
 
 def oracle_check(inp):
-    """None, ('ambiguous', why) or (key, what, detail): the property checked on the real code."""
+    """None, ('ambiguous', why) or (key, what, detail): the property checked on the real code (fresh JetAnalysis
+    object, fresh list of fresh particles, own output path)."""
     ref = ref_groups(inp)
     if isinstance(ref, tuple):
         return ref
     outcome, real, path = real_run(inp)
+    return judge(inp, outcome, real, path, ref=ref)
+
+
+def judge(inp, outcome, real, path, ref=None, reader=None):
+    """the property for ONE call: `inp` = what the call was given (current content of the events, parameters, what the
+    output file held before), `outcome`/`real`/`path` = what the real code did.  `reader` = the JetAnalysis object whose
+    read_jet_data is to be used (a fresh one when None)."""
+    if ref is None:
+        ref = ref_groups(inp)
+    if isinstance(ref, tuple):
+        return ref
     if outcome != "ok":
         return ("call-raises", f"perform_jet_finding raised ({outcome}) on valid input", dict(outcome=outcome))
     exp = [r for g in ref for r in g]
@@ -757,7 +813,7 @@ def oracle_check(inp):
                 dict(row=k, expected=exp[k] if k < len(exp) else None, observed=real[k] if k < len(real) else None))
     # reader: what was written, grouped jet by jet
     from sparkx.JetAnalysis import JetAnalysis
-    ja = JetAnalysis()
+    ja = reader if reader is not None else JetAnalysis()
     try:
         ja.read_jet_data(path)
     except Exception as e:  # noqa: BLE001
@@ -820,6 +876,346 @@ def shrink(inp, key):
     return cur
 
 
+# ------------------------------------------------------------------ sessions: one long-lived JetAnalysis object
+# A session = initial content `base` (events as lists of particle dicts) + `steps`.  Every step first changes the
+# data THROUGH THE PUBLIC API of list / Particle (`mut`), then hands the events to perform_jet_finding of the SAME
+# JetAnalysis object as `data`: "same" (the very list object of the previous call, changed in place), "new" (new list of
+# new particles with the current content) or "new-outer" (new outer list holding the same event lists).  Parameters,
+# the output path ("a"/"b" inside one scratch directory; re-used paths hold the previous call's output unless `pre`
+# rewrites or deletes the file) and `read` (read_jet_data on the same object afterwards) vary from step to step.
+# After every call the file is judged against the reference for the CURRENT content (`judge`); the harness keeps a
+# dict mirror of the content, so nothing is taken from the object under test.
+MUT_KINDS = ["replace_event", "append_particle", "remove_particle", "swap_events", "set_mom", "set_status", "set_charge",
+             "append_event", "remove_event"]
+
+
+def apply_mut(content, live, op):
+    """apply one mutation to the dict mirror and (when given) to the live list of lists of Particle, in place.
+    Returns False when the operation does not fit the current content (used by the shrinker)."""
+    try:
+        k = op[0]
+        if k == "replace_event":
+            _, i, ev = op
+            if not 0 <= i < len(content):
+                return False
+            content[i] = copy.deepcopy(ev)
+            if live is not None:
+                live[i] = [mk_particle(d) for d in ev]
+        elif k == "append_event":
+            content.append(copy.deepcopy(op[1]))
+            if live is not None:
+                live.append([mk_particle(d) for d in op[1]])
+        elif k == "remove_event":
+            if not 0 <= op[1] < len(content):
+                return False
+            del content[op[1]]
+            if live is not None:
+                del live[op[1]]
+        elif k == "swap_events":
+            _, i, j = op
+            if not (0 <= i < len(content) and 0 <= j < len(content)):
+                return False
+            content[i], content[j] = content[j], content[i]
+            if live is not None:
+                live[i], live[j] = live[j], live[i]
+        elif k == "append_particle":
+            _, i, d = op
+            if not 0 <= i < len(content):
+                return False
+            content[i].append(dict(d))
+            if live is not None:
+                live[i].append(mk_particle(d))
+        elif k == "remove_particle":
+            _, i, j = op
+            if not (0 <= i < len(content) and 0 <= j < len(content[i])):
+                return False
+            del content[i][j]
+            if live is not None:
+                del live[i][j]
+        elif k in ("set_mom", "set_status", "set_charge"):
+            _, i, j, v = op
+            if not (0 <= i < len(content) and 0 <= j < len(content[i])):
+                return False
+            if k == "set_mom":
+                content[i][j].update(px=v[0], py=v[1], pz=v[2], E=v[3])
+                if live is not None:
+                    q = live[i][j]
+                    q.px, q.py, q.pz, q.E = v
+            elif k == "set_status":
+                content[i][j]["status"] = v
+                if live is not None:
+                    live[i][j].status = v
+            else:
+                content[i][j]["charge"] = v
+                if live is not None:
+                    live[i][j].charge = v
+        else:
+            return False
+        return True
+    except (IndexError, KeyError, TypeError, ValueError):
+        return False
+
+
+def gen_params(rng):
+    return dict(R=rng.choice([0.2, 0.4, 0.4, 0.7, 1.0, rng.uniform(0.15, 1.2)]),
+                alg=rng.choice(["antikt", "antikt", "antikt", "kt", "cambridge", "genkt"]),
+                eta=list(rng.choice(ETA_CHOICES[:5])), pt=list(rng.choice(PT_CHOICES)), only_charged=rng.random() < 0.6)
+
+
+def gen_mutation(rng, content):
+    """one in-place change of the current content, biased towards events that can hold jets"""
+    big = [i for i, ev in enumerate(content) if len(ev) >= 3]
+    anyev = list(range(len(content)))
+    kind = rng.choice(MUT_KINDS + ["replace_event", "append_particle", "remove_particle", "set_mom"])
+    if not anyev:
+        kind = "append_event"
+    pick = (lambda: rng.choice(big) if big and rng.random() < 0.85 else rng.choice(anyev))
+    if kind == "replace_event":
+        return ["replace_event", pick(), gen_event(rng, rng.choice(["jets", "jets", "jets", "soft", "empty", "outside"]))]
+    if kind == "append_event":
+        return ["append_event", gen_event(rng, rng.choice(["jets", "jets", "soft", "empty"]))]
+    if kind == "remove_event":
+        return ["remove_event", rng.choice(anyev)]
+    if kind == "swap_events":
+        if len(anyev) < 2:
+            return ["append_event", gen_event(rng, "jets")]
+        i, j = rng.sample(anyev, 2)
+        return ["swap_events", i, j]
+    i = pick()
+    ev = content[i]
+    if kind == "append_particle" or not ev:
+        if ev and rng.random() < 0.8:  # next to an existing particle: probably inside a cone
+            d = rng.choice(ev)
+            pt_, eta_, phi_ = _eta_phi(d["px"], d["py"], d["pz"])
+            return ["append_particle", i, _particle(rng, rng.uniform(0.5, 15.0), eta_ + rng.uniform(-0.2, 0.2),
+                                                    phi_ + rng.uniform(-0.2, 0.2), rng.choice([0, 1, 27, -1, -11]),
+                                                    rng.choice([0, 1, -1]))]
+        return ["append_particle", i, _particle(rng, rng.uniform(0.5, 30.0), rng.uniform(-2, 2), rng.uniform(0, 6.28),
+                                                rng.choice([0, 1, 27, -1]), rng.choice([0, 1, -1]))]
+    j = rng.randrange(len(ev))
+    if kind == "remove_particle":
+        return ["remove_particle", i, j]
+    d = ev[j]
+    if kind == "set_mom":
+        r = rng.random()
+        if r < 0.4:  # scale the four-momentum
+            f = rng.choice([0.25, 0.5, 2.0, 3.0, rng.uniform(0.1, 4.0)])
+            return ["set_mom", i, j, [d["px"] * f, d["py"] * f, d["pz"] * f, d["E"] * f]]
+        if r < 0.8:  # rotate in azimuth
+            a = rng.uniform(0.3, 3.0) * rng.choice([-1, 1])
+            c, s_ = math.cos(a), math.sin(a)
+            return ["set_mom", i, j, [c * d["px"] - s_ * d["py"], s_ * d["px"] + c * d["py"], d["pz"], d["E"]]]
+        q = _particle(rng, rng.uniform(0.5, 40.0), rng.uniform(-2.5, 2.5), rng.uniform(0, 6.28), 0, 0)
+        return ["set_mom", i, j, [q["px"], q["py"], q["pz"], q["E"]]]
+    if kind == "set_status":
+        st = d["status"] if d["status"] is not None else 0
+        return ["set_status", i, j, rng.choice([-1, -11]) if st >= 0 else rng.choice([0, 1, 27])]
+    return ["set_charge", i, j, rng.choice([0, 1, -1]) if d["charge"] != 0 else rng.choice([1, -1])]
+
+
+def gen_session(rng):
+    nev = rng.choice([1, 2, 2, 3, 4])
+    base = [gen_event(rng, "jets" if rng.random() < 0.7 else rng.choice(["empty", "soft", "outside"])) for _ in range(nev)]
+    content = copy.deepcopy(base)
+    par = gen_params(rng)
+    prior, _ = gen_prior(rng)
+    steps = [dict(mut=[], data="new", path="a", pre=("keep" if prior is None else dict(text=prior)), read=rng.random() < 0.4, **par)]
+    for _ in range(rng.choice([1, 1, 2, 2, 3])):
+        r = rng.random()
+        data = "same" if r < 0.6 else "new" if r < 0.8 else "new-outer"
+        muts = []
+        for _m in range(rng.choice([0, 1, 1, 1, 2, 3]) if data != "new" or rng.random() < 0.5 else 0):
+            op = gen_mutation(rng, content)
+            if apply_mut(content, None, op):
+                muts.append(op)
+        r = rng.random()
+        if r < 0.5:
+            pass  # the same parameters again
+        elif r < 0.75:
+            par = dict(par, **{k: v for k, v in gen_params(rng).items() if rng.random() < 0.4})
+        else:
+            par = gen_params(rng)
+        r = rng.random()
+        pre = "keep" if r < 0.7 else "delete" if r < 0.8 else dict(text=gen_prior(rng)[0] or "")
+        steps.append(dict(mut=muts, data=data, path=steps[-1]["path"] if rng.random() < 0.7 else rng.choice(["a", "b"]),
+                          pre=pre, read=rng.random() < 0.4, **par))
+    return dict(base=base, steps=steps)
+
+
+def run_session(sess, judge_steps=True, upto=None):
+    """Run the whole call history on ONE JetAnalysis object.  Returns a list with one entry per executed step:
+    dict(inp=<the single-call input this step amounts to>, outcome, real, verdict).  With judge_steps the run stops
+    at the first step whose verdict is a violation.  Returns None when a mutation does not fit (shrinker)."""
+    from sparkx.JetAnalysis import JetAnalysis
+    tmp = tempfile.mkdtemp(prefix="verif_C20_s_")
+    out = []
+    try:
+        ja = JetAnalysis()
+        content = copy.deepcopy(sess["base"])
+        live = None
+        for k, st in enumerate(sess["steps"] if upto is None else sess["steps"][:upto + 1]):
+            for op in st["mut"]:
+                if not apply_mut(content, live, op):
+                    return None
+            if live is None or st["data"] == "new":
+                live = [[mk_particle(d) for d in ev] for ev in content]
+            elif st["data"] == "new-outer":
+                live = list(live)
+            path = os.path.join(tmp, st["path"] + ".csv")
+            if st["pre"] == "delete":
+                if os.path.exists(path):
+                    os.remove(path)
+            elif isinstance(st["pre"], dict):
+                with open(path, "w", newline="") as f:
+                    f.write(st["pre"]["text"])
+            prior = None
+            if os.path.exists(path):
+                with open(path, "r", newline="") as f:
+                    prior = f.read()
+            inp = dict(events=copy.deepcopy(content), R=st["R"], alg=st["alg"], eta=list(st["eta"]), pt=list(st["pt"]),
+                       only_charged=st["only_charged"], prior=prior)
+            outcome = "ok"
+            try:
+                with contextlib.redirect_stdout(io.StringIO()):
+                    ja.perform_jet_finding(live, st["R"], tuple(st["eta"]), tuple(st["pt"]), path,
+                                           assoc_only_charged=st["only_charged"], jet_algorithm=_alg(st["alg"]))
+            except ValueError:
+                outcome = "err value"
+            except Exception as e:  # noqa: BLE001
+                outcome = "err other:" + type(e).__name__
+            real = read_rows(path)
+            verdict = None
+            if judge_steps:
+                verdict = judge(inp, outcome, real, path, reader=ja if st["read"] else None)
+            elif st["read"] and outcome == "ok" and real is not None:
+                try:
+                    ja.read_jet_data(path)
+                except Exception:  # noqa: BLE001
+                    pass
+            out.append(dict(inp=inp, outcome=outcome, real=real, verdict=verdict))
+            if judge_steps and is_violation(verdict):
+                break
+        return out
+    finally:
+        for f in os.listdir(tmp):
+            os.unlink(os.path.join(tmp, f))
+        os.rmdir(tmp)
+
+
+def session_failure(sess):
+    """None, or (k, verdict, inp_k, reuse): step k of the history violates the property; reuse = a fresh object given
+    the same call (current content, same parameters, same file content before) is right."""
+    res = run_session(sess)
+    if not res or not is_violation(res[-1]["verdict"]):
+        return None
+    k, last = len(res) - 1, res[-1]
+    fresh = oracle_check(last["inp"])
+    return k, last["verdict"], last["inp"], not is_violation(fresh)
+
+
+def _plain(key):
+    """a failure that a fresh object does not show is not the hole-lookup text, whatever the rows happen to match"""
+    return "rows-mismatch" if key.startswith("holes/") else key
+
+
+def reuse_key(sess, k, verdict):
+    return f"instance-reuse-{sess['steps'][k]['data']}-list: {_plain(verdict[0])}"
+
+
+def shrink_session(sess, k, key0):
+    """keep the failure (same plain key at the LAST step, fresh object right) while dropping calls, mutations, events,
+    particles and per-step extras"""
+    cur = dict(base=copy.deepcopy(sess["base"]), steps=copy.deepcopy(sess["steps"][:k + 1]))
+
+    def still(c):
+        f = session_failure(c)
+        return f is not None and f[0] == len(c["steps"]) - 1 and _plain(f[1][0]) == _plain(key0) and f[3]
+
+    def merged(c, i):
+        """drop call i, keep its mutations (and its choice of list object) for the next call"""
+        st, nxt = c["steps"][i], dict(c["steps"][i + 1])
+        nxt["mut"] = st["mut"] + nxt["mut"]
+        if nxt["data"] == "same" and (st["data"] != "same" or i == 0):
+            nxt["data"] = st["data"]
+        return dict(c, steps=c["steps"][:i] + [nxt] + c["steps"][i + 2:])
+
+    if not still(cur):
+        return cur
+    changed = True
+    rounds = 0
+    while changed and rounds < 200:
+        changed = False
+        rounds += 1
+        cands = []
+        for i in range(len(cur["steps"]) - 1):
+            if len(cur["steps"]) > 2:
+                cands.append(merged(cur, i))
+        for i, st in enumerate(cur["steps"]):
+            for j in range(len(st["mut"])):
+                cands.append(dict(cur, steps=cur["steps"][:i] + [dict(st, mut=st["mut"][:j] + st["mut"][j + 1:])] + cur["steps"][i + 1:]))
+            if st["read"]:
+                cands.append(dict(cur, steps=cur["steps"][:i] + [dict(st, read=False)] + cur["steps"][i + 1:]))
+            if st["pre"] != "keep":
+                cands.append(dict(cur, steps=cur["steps"][:i] + [dict(st, pre="keep")] + cur["steps"][i + 1:]))
+        last = cur["steps"][-1]
+        for i, st in enumerate(cur["steps"][:-1]):
+            if any(st[f] != last[f] for f in ("R", "alg", "eta", "pt", "only_charged", "path")):
+                cands.append(dict(cur, steps=cur["steps"][:i] + [dict(st, **{f: last[f] for f in ("R", "alg", "eta", "pt", "only_charged", "path")})]
+                                  + cur["steps"][i + 1:]))
+        for i in range(len(cur["base"])):
+            cands.append(dict(cur, base=cur["base"][:i] + cur["base"][i + 1:]))
+        for i in range(len(cur["base"])):
+            for j in range(len(cur["base"][i])):
+                cands.append(dict(cur, base=cur["base"][:i] + [cur["base"][i][:j] + cur["base"][i][j + 1:]] + cur["base"][i + 1:]))
+        for i, st in enumerate(cur["steps"]):  # shrink the events carried by mutations
+            for j, op in enumerate(st["mut"]):
+                if op[0] in ("replace_event", "append_event"):
+                    ev = op[-1]
+                    for q in range(len(ev)):
+                        op2 = op[:-1] + [ev[:q] + ev[q + 1:]]
+                        cands.append(dict(cur, steps=cur["steps"][:i] + [dict(st, mut=st["mut"][:j] + [op2] + st["mut"][j + 1:])] + cur["steps"][i + 1:]))
+        for c in cands:
+            if still(c):
+                cur, changed = c, True
+                break
+    return cur
+
+
+def report_session(ctx, sess, seen, do_shrink=True):
+    """judge one session on the real code; report a plain violation (a fresh object fails too) or an instance-reuse one"""
+    f = session_failure(sess)
+    if f is None:
+        return False
+    k, verdict, inp_k, reuse = f
+    if not reuse:
+        if verdict[0] not in seen:
+            seen.add(verdict[0])
+            small = shrink(inp_k, verdict[0]) if do_shrink else strip(inp_k)
+            r2 = oracle_check(small)
+            if not (is_violation(r2) and r2[0] == verdict[0]):
+                small, r2 = strip(inp_k), verdict
+            _report(ctx, small, r2)
+        return True
+    key = reuse_key(sess, k, verdict)
+    if key in seen:
+        return True
+    seen.add(key)
+    small = shrink_session(sess, k, verdict[0]) if do_shrink else dict(base=sess["base"], steps=sess["steps"][:k + 1])
+    f2 = session_failure(small)
+    if f2 is None or not f2[3]:
+        small, f2 = dict(base=sess["base"], steps=sess["steps"][:k + 1]), f
+    k2, verdict2 = f2[0], f2[1]
+    key = reuse_key(small, k2, verdict2)
+    hist = [dict(call=i + 1, data=st["data"], changes=[op[0] for op in st["mut"]], path=st["path"]) for i, st in enumerate(small["steps"])]
+    ctx.violation(key, f"a JetAnalysis object that already served {k2} call(s) writes a wrong file for call {k2 + 1} "
+                       f"(list object: {small['steps'][k2]['data']}, changes before it: {[op[0] for op in small['steps'][k2]['mut']]}) "
+                       f"where a fresh object given the same current content is right: "
+                       f"{verdict2[1] if _plain(verdict2[0]) == verdict2[0] else 'output file differs from the jets of this call'}",
+                  dict(input=small, detail=dict(failing_call=k2 + 1, history=hist, verdict=verdict2[2]),
+                       how_to_replay="./check C20 --replay <this file>  (runs the whole call history on one object, in a new process)"))
+    return True
+
+
 def corpus():
     p = common.VERIF / "harness/corpus/C20"
     return [json.loads(f.read_text()) for f in sorted(p.glob("*.json"))] if p.exists() else []
@@ -834,14 +1230,34 @@ def search(ctx, budget_s):
     t0 = time.time()
     n = amb = 0
     seen = set()
+    nsess = ncalls = 0
     for case in corpus():
-        r = oracle_check(case["input"])
         n += 1
+        if "steps" in case["input"]:
+            report_session(ctx, case["input"], seen, do_shrink=False)
+            continue
+        r = oracle_check(case["input"])
         if is_violation(r) and r[0] not in seen:
             seen.add(r[0])
             _report(ctx, case["input"], r)
     limit = 3000 if ctx.thorough else 300
     while time.time() - t0 < budget_s and n < limit:
+        if n % 3 == 2:
+            # a call history on one long-lived JetAnalysis object (lists re-used and changed in place, new lists,
+            # changed parameters, re-used output paths); every call judged against the current content
+            sess = gen_session(rng)
+            n += 1
+            nsess += 1
+            ncalls += len(sess["steps"])
+            for st in sess["steps"][1:]:
+                ctx.count("oracle-session/list=" + st["data"])
+                for op in st["mut"]:
+                    ctx.count("oracle-session/change=" + op[0])
+            ctx.case(("oracle-session", json.dumps(sess, sort_keys=True)), True)
+            report_session(ctx, sess, seen)
+            if len(seen) >= 4:
+                break
+            continue
         inp, info = gen_input(rng)
         r = oracle_check(inp)
         n += 1
@@ -861,6 +1277,8 @@ def search(ctx, budget_s):
             if len(seen) >= 4:
                 break
     ctx.cov["oracle_cases"] = n
+    ctx.cov["oracle_sessions"] = nsess
+    ctx.cov["oracle_session_calls"] = ncalls
     ctx.cov["oracle_ambiguous_skipped"] = amb
     ctx.count("oracle", n)
 
@@ -870,6 +1288,17 @@ def replay(ctx, path):
     inp = d.get("input")
     if not inp:
         print(f"[C20] replay file names a broken obligation, not an input: {d.get('broken')}")
+        return 1
+    if "steps" in inp:
+        f = session_failure(inp)
+        if f is None:
+            print("[C20] replay: every call of this history on one JetAnalysis object gives this call's jets now")
+            return 0
+        k, verdict, inp_k, reuse = f
+        print(f"VIOLATION property=C20 replay={path}")
+        print(f"call {k + 1} of {len(inp['steps'])} on the re-used JetAnalysis object "
+              f"({'a fresh object is right' if reuse else 'a fresh object fails as well'}): {verdict[1]}",
+              json.dumps(verdict[2], default=str))
         return 1
     if "events" not in inp:
         print(f"[C20] replay input is a correspondence case without events: {inp}")
